@@ -40,14 +40,14 @@ def leaf_exports():
 
 
 def container_exports():
-    """ArrayOf/TupleOf/StructOf.export_value: check_type(value) (strict: optional members required on the node),
-    then the members' export_value element by element"""
+    """ArrayOf/TupleOf.export_value: check_type(value); StructOf.export_value: check_type(value, True) (optional members
+    may be missing, 45926fd); then the members' export_value element by element"""
     a = _body('ArrayOf', 'export_value')
     t = _body('TupleOf', 'export_value')
     s = _body('StructOf', 'export_value')
     ok = (a == ['self.check_type(value)', 'return[self.members.export_value(elem)foreleminvalue]']
           and t == ['self.check_type(value)', 'return[sub.export_value(elem)forsub,eleminzip(self.members,value)]']
-          and s == ['self.check_type(value)',
+          and s == ['self.check_type(value,True)',
                     'returndict(((str(k),self.members[k].export_value(v))fork,vinlist(value.items())))'])
     return 'bool', cbool(ok)
 
@@ -135,7 +135,10 @@ def container_text_forms():
     first = _q(s.body[0])
     ok = ("res=f'[{','.join([self.members.format_value(elem,innerunit)foreleminvalue])}]'" in _q(a)
           and 'innerunit=False' in _q(a)
-          and _q(t.body[-1]) == "returnf'({','.join([sub.format_value(elem,unit)forsub,eleminzip(self.members,value)])})'"
+          and [_q(st) for st in t.body] == [
+              'items=[sub.format_value(elem,unit)forsub,eleminzip(self.members,value)]',
+              "iflen(items)==1:\nreturnf'({items[0]},)'",          # the python syntax of a tuple with one element (5f8afed)
+              "returnf'({','.join(items)})'"]
           and first.startswith('ifunitisFalse:')
           and "'{%s}'%','.join(['%r:%s'%(k,self.members[k].format_value(v,False))fork,vinvalue.items()])" in first)
     # the separators themselves (blanks matter in the text)
@@ -182,7 +185,7 @@ def rebuild_rows():
     ok = (rows.get('scaled') == 'lambdascale,min,max,**kwds:ScaledInteger(scale=scale,min=min*scale,max=max*scale,'
                                 '**floatargs(kwds))'
           and rows.get('string') == 'lambdaminchars=0,maxchars=None,isUTF8=False,**kwds:StringType(minchars=minchars,'
-                                    'maxchars=maxchars,isUTF8=isUTF8)'
+                                    'maxchars=UNLIMITEDifmaxcharsisNoneelsemaxchars,isUTF8=isUTF8)'   # 414a5ee
           and rows.get('struct') == "lambdamembers,optional=None,pname='',**kwds:StructOf(optional,**dict(((n,"
                                     "get_datatype(t,pname))forn,tinlist(members.items()))))"
           and rows.get('enum') == "lambdamembers,pname='',**kwds:EnumType(pname,members=members)"
